@@ -92,3 +92,48 @@ claim('C18', 'argument-provenance (def-use) analysis of sampler entry points dow
       'C18.a every Sampler convenience entry point reaches run_sweep(_async) with program/params/repetitions derived from its own arguments and returns the hook\'s result; '
       'C18.b ResultDict packed-record fields == _unpack_digits parameters, binary flag provenance and encoding agreement, EngineResult job_id; C18.c wrapping samplers forward all arguments and validate first',
       'endianness / shape / mixed-radix digit conversions, histograms, data frames, string forms, concatenation')
+
+# ---- rules added later (see DESIGN.md section 3 for the full list per property) -------------------------------------------
+more('C01', 'guard interpretation of the product-state SWAP shortcut on probe exponents',
+     'C01.d the relabelling shortcut is taken only for gates that are exactly SWAP')
+more('C02', 'statement-order rule on the two recording paths, nested-mutation copy rule, interpretation of the Pauli-measurement decomposition over all masks',
+     'C02.h confusion map applied before the invert mask on the fast path and the per-repetition path; C02.b2 the classical store copies its per-key lists; '
+     'C02.i PauliMeasurementGate decomposes as V^-1 . measure . V with V P V^dag = Z (all masks, <=3 qubits)',
+     'outcome probabilities, collapse and renormalisation arithmetic, confusion sampling arithmetic')
+more('C04', 'dominance rule on the apply_unitary protocol (no give-up after a partial in-place sequence; defer vs refuse)',
+     'C04.b3 apply_unitaries on the caller args only after all operations are known to be unitary, a missing decomposition defers to the next strategy; C04.c decompositions == matrices')
+more('C05', 'cache-dependency coherence of derived circuits', 'C05.i a circuit built from another inherits a memoised summary only if no field it is computed from changed')
+more('C06', 'required isinstance guard where measurement semantics justify a rewrite', 'C06.i facts collected under is_measurement(op) to alter other operations also require MeasurementGate')
+more('C07', 'interpretation of the Pasqal distance function and of the Sycamore known-gate dispatcher on model values',
+     'C07.f device distance == Euclidean distance for every qubit kind; C07.g tabulated Sycamore decompositions only for exponents equal to the tabulated gate up to phase; '
+     'C07.e body-for-op substitution guarded by the transformer\'s own tag')
+more('C08', 'equality-completeness coherence, commutes soundness rule, interpretation of trace-distance bounds against exact values, repository-wide effect rules (discarded value, freshness of foreign private stores, impossible sign test)',
+     'C08.d2 equality covers every stored constructor parameter; C08.e no _commutes_ True from phase-blind tableau equality (1 known finding); C08.f every _trace_distance_bound_ override, '
+     'controlled wrappers and the helper >= the exact maximum trace distance; C08.i no discarded result of a value method; C08.j private fields of another object written only on fresh objects; '
+     'C08.k no sign test after abs()',
+     'approx_eq / equal_up_to_global_phase numerics, phase_by, ControlledGate matrices, equality canonicalisation of control values')
+more('C10', 'def-use flow of parameter fields into calls that receive the resolver', 'C10.a2 every parameter-carrying field is actually handed to the resolver; C10.f resolver composition order; C10.g flattened symbols')
+more('C11', 'lossless-writer and equality-completeness coherence',
+     'C11.d3 the value written under a key is not a constant arm, half of a mapping or a re-ordered sequence; C11.i equality covers every stored constructor parameter')
+more('C12', 'aspect-coverage coherence, sign-applied-once rule, applied-flow sibling agreement, interpretation of multi-key remapping on a model condition, statement-order rule',
+     'C12.f binding context on rescoping; C12.g conditions rebuilt completely; C12.h every behaviour protocol reads every field that changes that aspect; C12.i sign of repetitions applied once; '
+     'C12.j simultaneous key substitution; C12.k an operation cannot satisfy its own control; key-rewriting methods of one class rewrite the same children')
+more('C13', 'interpretation of _measure/_rowsum against a reference Aaronson-Gottesman tableau in the checker (all 2-qubit tableaux reachable with <=3 gates, both random bits, two-step histories); permutation-direction coherence',
+     'C13.e CH-form copy/reindex carry every array and gather in one direction; C13.f _pad_tableau keeps the order of axes; C13.g stabilizer measurement == reference algorithm',
+     'CH-form update algebra and amplitudes, CliffordGate group laws, from_unitary, decompositions')
+more('C14', 'field/flow coherence of the Pauli classes, interpretation of the power-gate shortcut and of the phasor decomposition over all masks',
+     'C14.f in-place conjugation can shrink support and updates the sign; C14.g LinearDict arithmetic cleans with atol=0; C14.h rebuild completeness; C14.i conversions carry the coefficient; '
+     'C14.j X/Y/Z power-gate interpretation accounts for global_shift; C14.k PauliStringPhasorGate decomposition == exp(i pi (t- P- + t+ P+)) for every mask on <=3 qubits',
+     'multi-qubit PauliSum arithmetic, conjugation by Cliffords, expectation values')
+more('C16', 'truthiness-shortcut rules on readers, field coverage of the sub-circuit serializer',
+     'C16.f x or c only with the zero of the type, a branch on field F uses F; C16.g every CircuitOperation field written or refused and read back, ids arm not reachable with negative repetitions')
+more('C17', 'interpretation of metadata chunking and pauliexp', 'C17.e measurement metadata chunks lossless, pauliexp operator and coefficients')
+more('C18', 'type-flow rule on integer accumulators, interpretation of the digit conversions over all small mixed radices and 70-position inputs, additive-accumulation rule, axis-label abstract interpretation of record arrays',
+     'C18.d digit folds keep a Python-int accumulator; C18.e the four big-endian conversions compute the positional value and are mutual inverses; C18.f histogram accumulation additive; '
+     'C18.g record arrays are (repetitions, instances, qubits) at every conversion site',
+     'data frames, string forms, bit packing arithmetic of _pack_digits, caller-supplied fold functions')
+more('C19', 'uses-all-arguments rule on entry points, probe interpretation of QasmUGate and the KAK core',
+     'C19.d KAK core and creg width; C19.e entry points hand on every argument; QasmUGate emits its own angles')
+more('C20', 'lexical-scope rule on the concurrency limiter', 'C20.f job results awaited inside the limiter')
+more('C03', 'interpretation of parametric closed forms at probe parameters', 'C03.f GPI/GPI2/MS/ZZ, FSim, PhasedFSim, PhasedXZ closed forms == reference matrices')
+more('C09', 'flow rule on trajectory renormalisation', 'C09.b renormalise by the sampled branch norm, draw by subtracting branch weights from a uniform draw')
